@@ -62,6 +62,95 @@ func vfC17WaitBound() time.Duration {
 	return vfC17WaitLong
 }
 
+// vfC17BlockedForGood looks for a goroutine of the semaphore / the limit listener that can never run
+// again: one that receives from (sends to) a nil channel or selects without cases. That is a
+// completion signal in the negative - "this capacity change will never be applied" - and not a
+// timing assumption: such a goroutine stays blocked however long anybody waits. Returns its stack.
+func vfC17BlockedForGood() string {
+	buf := make([]byte, 1<<20)
+	buf = buf[:runtime.Stack(buf, true)]
+	for _, g := range strings.Split(string(buf), "\n\n") {
+		nl := strings.IndexByte(g, '\n')
+		if nl < 0 {
+			continue
+		}
+		head := g[:nl]
+		if !strings.Contains(head, "(nil chan)") && !strings.Contains(head, "select (no cases)") {
+			continue
+		}
+		if strings.Contains(g, "/pkg/util/sem.") || strings.Contains(g, "/pkg/util/limitlistener.(") {
+			return g
+		}
+	}
+	return ""
+}
+
+// vfC17StuckPoller decides when a bounded wait looks for goroutines that are blocked for good:
+// 10 ms after the wait began, then 200 ms, 1 s, and every second from then on (a stack dump of all
+// goroutines stops the world; an unchanged tree practically never waits that long).
+type vfC17StuckPoller struct {
+	start time.Time
+	n     int
+}
+
+func (p *vfC17StuckPoller) due() bool {
+	if p.start.IsZero() {
+		p.start = time.Now()
+		return false
+	}
+	var at time.Duration
+	switch p.n {
+	case 0:
+		at = 10 * time.Millisecond
+	case 1:
+		at = 200 * time.Millisecond
+	default:
+		at = time.Duration(p.n-1) * time.Second
+	}
+	if time.Since(p.start) < at {
+		return false
+	}
+	p.n++
+	return true
+}
+
+// awaitOrStuck waits for done, for the bound, or for the proof that done can never happen.
+func (r *vfC17Rig) awaitOrStuck(done <-chan struct{}) bool {
+	if r.isStuck() {
+		return false
+	}
+	deadline := time.Now().Add(vfC17WaitBound())
+	var p vfC17StuckPoller
+	p.due()
+	for wait := 2 * time.Millisecond; ; wait *= 2 {
+		if wait > 250*time.Millisecond {
+			wait = 250 * time.Millisecond
+		}
+		select {
+		case <-done:
+			return true
+		case <-time.After(wait):
+		}
+		if p.due() {
+			if g := vfC17BlockedForGood(); g != "" {
+				r.mu.Lock()
+				r.stuck = g
+				r.mu.Unlock()
+				return false
+			}
+		}
+		if time.Now().After(deadline) {
+			return false
+		}
+	}
+}
+
+func (r *vfC17Rig) isStuck() bool {
+	r.mu.Lock()
+	defer r.mu.Unlock()
+	return r.stuck != ""
+}
+
 // vfC17Addr is the address of an in-memory connection; the remote address carries the dial number,
 // which is how the harness recognises a connection that LimitListener.Accept hands back (the
 // wrapper type and its fields are none of the harness's business).
@@ -210,6 +299,7 @@ type vfC17Rig struct {
 	counter    int // accepted and not yet handed to Close (under-approximates open connections)
 	innerOpen  int // accepted and the Close of the WRAPPED connection has not returned yet (what is really open)
 	slowCloseSaturated int // slow inner closes started while open == cap with a dial pending
+	stuck      string // stack of a semaphore goroutine that is blocked for good ("" = none seen)
 	open       map[int]net.Conn
 	closed     map[int]net.Conn
 	dialed     int
@@ -408,15 +498,30 @@ func (r *vfC17Rig) openIDs() []int {
 func (r *vfC17Rig) waitFor(pred func() bool) bool {
 	bound := vfC17WaitBound()
 	deadline := time.Now().Add(bound)
-	t := time.AfterFunc(bound+100*time.Millisecond, func() {
+	wake := func() {
 		r.mu.Lock()
 		r.cond.Broadcast()
 		r.mu.Unlock()
-	})
+	}
+	t := time.AfterFunc(bound+100*time.Millisecond, wake)
 	defer t.Stop()
+	// early wake-ups: look whether what is being waited for can still happen at all
+	t1, t2, t3 := time.AfterFunc(11*time.Millisecond, wake), time.AfterFunc(201*time.Millisecond, wake), time.AfterFunc(1001*time.Millisecond, wake)
+	defer func() { t1.Stop(); t2.Stop(); t3.Stop() }()
+	var p vfC17StuckPoller
+	p.due()
 	r.mu.Lock()
 	defer r.mu.Unlock()
 	for !pred() {
+		if r.stuck != "" {
+			return false
+		}
+		if p.due() {
+			if g := vfC17BlockedForGood(); g != "" {
+				r.stuck = g
+				return false
+			}
+		}
 		if time.Now().After(deadline) {
 			atomic.StoreInt32(&vfC17ExpiredOnce, 1)
 			return false
@@ -495,7 +600,17 @@ func (r *vfC17Rig) behaviouralCapacityProbe() (bool, string) {
 		r.closeConn(id)
 	}
 	deadline := time.Now().Add(vfC17WaitBound())
+	var p vfC17StuckPoller
+	p.due()
 	for runtime.NumGoroutine() > r.baseG+1 { // +1: the acceptor loop
+		if p.due() {
+			if g := vfC17BlockedForGood(); g != "" {
+				r.mu.Lock()
+				r.stuck = g
+				r.mu.Unlock()
+				return false, "a goroutine applying a capacity change is blocked for good"
+			}
+		}
 		// a connection accepted a moment ago still holds a permit a pending shrink may be waiting for
 		r.mu.Lock()
 		ids = r.openIDs()
@@ -521,7 +636,10 @@ func (r *vfC17Rig) behaviouralCapacityProbe() (bool, string) {
 	r.stableCap = r.lastIssued
 	r.maxCaps = r.stableCap
 	want := r.stableCap
-	r.logf("behavioural capacity probe: cap %d, %d dials", want, want+2)
+	if want > vfC17ProbeLimit {
+		want = vfC17ProbeLimit // a cap in the millions: only "at least that many" is probed
+	}
+	r.logf("behavioural capacity probe: cap %d, %d dials", r.stableCap, want+2)
 	r.mu.Unlock()
 	r.dial(want+2, false)
 	if !r.waitFor(func() bool { return r.counter >= want }) {
@@ -539,9 +657,7 @@ func (r *vfC17Rig) quiesce() (bool, string) {
 	r.logf("quiesce: %d pending dials withdrawn", w)
 	r.mu.Unlock()
 	r.ll.Close()
-	select {
-	case <-r.acc:
-	case <-time.After(vfC17WaitBound()):
+	if !r.awaitOrStuck(r.acc) && !r.isStuck() {
 		return false, "acceptor loop did not return after LimitListener.Close"
 	}
 	r.mu.Lock()
@@ -552,9 +668,7 @@ func (r *vfC17Rig) quiesce() (bool, string) {
 	}
 	wdone := make(chan struct{})
 	go func() { r.wg.Wait(); close(wdone) }()
-	select {
-	case <-wdone:
-	case <-time.After(vfC17WaitBound()):
+	if !r.awaitOrStuck(wdone) {
 		return false, "capacity change still not done after every connection was closed"
 	}
 	if r.baseG > 0 {
@@ -562,7 +676,17 @@ func (r *vfC17Rig) quiesce() (bool, string) {
 		// back at the baseline no capacity adjustment is pending any more (a completion signal, not
 		// a timing assumption)
 		deadline := time.Now().Add(vfC17WaitBound())
+		var p vfC17StuckPoller
+		p.due()
 		for runtime.NumGoroutine() > r.baseG {
+			if p.due() {
+				if g := vfC17BlockedForGood(); g != "" {
+					r.mu.Lock()
+					r.stuck = g
+					r.mu.Unlock()
+					return false, "a goroutine applying a capacity change is blocked for good"
+				}
+			}
 			if time.Now().After(deadline) {
 				atomic.StoreInt32(&vfC17ExpiredOnce, 1)
 				return false, fmt.Sprintf("goroutines started by SetMaxCount still running after every connection was closed (%d > baseline %d)", runtime.NumGoroutine(), r.baseG)
@@ -592,6 +716,12 @@ func vfC17SemOf(l *LimitListener) *sem2.Semaphore {
 	return nil
 }
 
+// vfC17ProbeLimit: the end-of-case capacity probes count permits up to this number only. Caps the
+// generator draws are either <= 6 or in the millions/billions; for the latter "exactly cap" cannot be
+// counted out (and how many connections a listener can take at the very most is not part of the
+// statement), "at least vfC17ProbeLimit" is what is checked.
+const vfC17ProbeLimit = 64
+
 var (
 	vfC17ProbeOnce sync.Once
 	vfC17ProbeOK   bool
@@ -606,6 +736,20 @@ func vfC17Free(s *sem2.Semaphore, limit int) int {
 		n++
 	}
 	return n
+}
+
+// vfC17FreeVsCap counts the free permits against the final cap. exact=false: the cap is above the
+// probe limit and only "at least vfC17ProbeLimit permits" was checked (lost), never "above".
+func vfC17FreeVsCap(s *sem2.Semaphore, finalCap int) (free int, lost, above, exact bool) {
+	limit := finalCap + 3
+	if limit > vfC17ProbeLimit {
+		limit = vfC17ProbeLimit
+	}
+	free = vfC17Free(s, limit)
+	if finalCap >= limit {
+		return free, free < limit, false, false
+	}
+	return free, free < finalCap, free > finalCap, true
 }
 
 func vfC17ProbeSelfTest() bool {
@@ -650,6 +794,11 @@ func vfC17GenStep(rt *rapid.T, i int, cap0 int) vfC17Step {
 		out := make([]int, n)
 		for j := range out {
 			out[j] = rapid.IntRange(1, 6).Draw(rt, "newcap")
+			// maxConnections is a uint32: operators write 4294967295 for "no limit". Every value is a
+			// legal cap, whatever the implementation's internal ceiling is.
+			if rapid.IntRange(0, 4).Draw(rt, "hugeCap") == 0 {
+				out[j] = rapid.SampledFrom([]int{4294967295, 4294967295, 2147483648, 20000001, 20000000, 1000000}).Draw(rt, "hugeCapValue")
+			}
 		}
 		return out
 	}
@@ -722,6 +871,7 @@ func TestVerifC17Listener(t *testing.T) {
 		go r.acceptLoop()
 
 		changeWhileOpen, overlap, shrinkBelow, grow, same, dbl := false, false, false, false, false, false
+		hugeThenLowered := 0
 		expired, why := false, ""
 
 		for _, s := range steps {
@@ -757,6 +907,9 @@ func TestVerifC17Listener(t *testing.T) {
 					}
 					if infl > 0 {
 						overlap = true
+					}
+					if last > 20000000 && n <= 6 {
+						hugeThenLowered++
 					}
 					switch {
 					case n < last && n < cnt:
@@ -838,6 +991,7 @@ func TestVerifC17Listener(t *testing.T) {
 		finalCap := r.lastIssued
 		heldBack, reuse := r.heldBackSeen, r.reuseSeen
 		slowSat := r.slowCloseSaturated
+		stuck := r.stuck
 		stableAcc, inflAcc, accErrs, peak := r.stableAccepts, r.inflightAccepts, r.acceptErrs, r.peak
 		r.mu.Unlock()
 
@@ -872,6 +1026,9 @@ func TestVerifC17Listener(t *testing.T) {
 		if same {
 			vf.Class("setmax-same-value")
 		}
+		for i := 0; i < hugeThenLowered; i++ {
+			vf.Class("cap-above-20M-then-lowered-to-a-small-cap")
+		}
 		if dbl {
 			vf.Class("double-close")
 		}
@@ -894,18 +1051,27 @@ func TestVerifC17Listener(t *testing.T) {
 				return
 			}
 		}
+		if stuck != "" {
+			if vf.Violation(rt, "capacity-change-can-never-be-applied", "a run-time change of the cap (last configured: %d) will never be in force: the goroutine applying it is blocked for good, and every later change queues behind it; the listener keeps admitting connections under an older, larger cap%s\nblocked goroutine:\n%s\nscript: %s\nhistory: %s", finalCap, map[bool]string{true: " [" + why + "]", false: ""}[expired], stuck, script, hist) {
+				return
+			}
+		}
 		if !qok {
 			rt.Fatalf("VF-INCONCLUSIVE %s\nscript: %s\nhistory: %s", qwhy, script, hist)
 		}
 		if vfC17ProbeOK && r.sem != nil {
-			free := vfC17Free(r.sem, finalCap+3)
-			vf.Class("exact-capacity-probe")
-			if free < finalCap {
+			free, lost, above, exact := vfC17FreeVsCap(r.sem, finalCap)
+			if exact {
+				vf.Class("exact-capacity-probe")
+			} else { // a cap in the millions: only "at least vfC17ProbeLimit permits" can be counted out
+				vf.Class("capacity-probe-lower-bound-only(cap-above-probe-limit)")
+			}
+			if lost {
 				if vf.Violation(rt, "capacity-lost-after-all-connections-closed", "everything closed and every change done: %d free permits, cap %d (released capacity is not usable again)%s\nscript: %s\nhistory: %s", free, finalCap, map[bool]string{true: " [found after a bounded wait expired: " + why + "]", false: ""}[expired], script, hist) {
 					return
 				}
 			}
-			if free > finalCap {
+			if above {
 				if vf.Violation(rt, "capacity-above-cap-after-all-connections-closed", "everything closed and every change done: >=%d free permits, cap %d (more than cap connections would be accepted)\nscript: %s\nhistory: %s", free, finalCap, script, hist) {
 					return
 				}
